@@ -180,6 +180,12 @@ class Prog:
             payload = payload.encode('latin-1')
         self.steps.append({'op': 'nofmt_data', 'lf': lf, 'obj': obj, 'payload': {'kind': kind, 'hex': bytes(payload).hex()}})
 
+    def nofmt_replace(self, idx, payload, kind='bytes'):
+        """Give the idx-th accepted no-format record (1-based, in order of creation in this process) a new payload."""
+        if isinstance(payload, str):
+            payload = payload.encode('latin-1')
+        self.steps.append({'op': 'nofmt_replace', 'idx': idx, 'payload': {'kind': kind, 'hex': bytes(payload).hex()}})
+
     def hc(self, what='enter'):
         self.steps.append({'op': {'enter': 'hc_enter', 'exit': 'hc_exit', 'exc': 'hc_exit_exc'}[what]})
 
